@@ -52,7 +52,7 @@ theorem model_gp_no_zero_extension_other_sizes (o : OpRW) (s : Nat) (hs : s ≠ 
   simp [zeroExtendGp, this]
 
 -- non-vacuity: `vaddpd xmm1{k1}, xmm2, xmm3`-like output, 32-bit destination with a 4-byte write mask
-example : (handleAvx512 ⟨1, 0, tMask⟩ false ⟨0, 0, 0, 0, {}, [OpRW.reset fW 16, OpRW.reset fR 16]⟩).ops.head?.map (·.flags) = some 3 := by decide
+example : (handleAvx512 ⟨1, 0, tMask, 1⟩ false ⟨0, 0, 0, 0, {}, [OpRW.reset fW 16, OpRW.reset fR 16]⟩).ops.head?.map (·.flags) = some 3 := by decide
 example : (zeroExtendGp (OpRW.reset fW 4) 4 8).emask = 0xF0 := by decide
 example : (zeroExtendGp (OpRW.reset fW 2) 2 8).emask = 0 := by decide
 
